@@ -91,6 +91,8 @@ func wmRun(t *testing.T, c *simrt.Case, prop string, keepTrace bool) simrt.Resul
 		// was made by a tool): a reader that "repairs" it would write
 		_ = w.inner.UpdateOffsets(ctx, "orders", 1, 49)
 		_ = w.inner.CommitConsumerOffset(ctx, "g0", "orders", 1, 80, "ahead")
+		// a simple consumer that commits without ever joining: offsets exist, a group record does not
+		_ = w.inner.CommitConsumerOffset(ctx, "batch-loader", "orders", 0, 5, "")
 		_ = w.inner.PutConsumerGroup(ctx, &metadatapb.ConsumerGroup{GroupId: "g0", State: "stable", GenerationId: 3, Leader: "m1",
 			RebalanceTimeoutMs: 30000,
 			Members: map[string]*metadatapb.GroupMember{
